@@ -9,30 +9,55 @@ def _stat(ln, key):
 
 
 def _skipped(ln):
-    return ln.startswith("E ") and "| skip-env" in ln
+    return ln.startswith("E ") and "| not-run" in ln
 
 
 def _post(lines, verdicts):
-    """Scenarios that could not start (no loopback ports) observe nothing. A few are tolerated and
-    reported; more than max(3, 2 %) means the e2e tie was not exercised and the check must fail."""
+    """Floors on what the e2e tie really observed (a run that observed too little is a broken
+    correspondence = diff, never ok):
+    * scenarios that were not run (no session / mock, harness cap exceeded) observe nothing: tolerated and
+      reported up to max(3, 2 %), a diff above that;
+    * of the started scenarios at least 80 % must contain request frames judged strictly (requests started
+      while a keyspace was established by an undisturbed successful call), at least 50 % such frames on
+      connections accepted AFTER that call returned, and overall there must be prepared-statement frames
+      and frames that overtook a delayed SetKeyspace answer (the send->ack window is open)."""
     e = [ln for ln in lines if ln.startswith("E ")]
+    if not e:
+        return []
+    out = []
     sk = [ln for ln in e if _skipped(ln)]
-    if e and len(sk) > max(3, len(e) // 50):
-        return [("diff", sk[0], "diff e2e tie not exercised: %d of %d scenarios could not start (%s)"
-                 % (len(sk), len(e), sk[0].split("|", 1)[1].strip()))]
-    return []
+    if len(sk) > max(3, len(e) // 50):
+        out.append(("diff", sk[0], "diff e2e tie not exercised: %d of %d scenarios were not run (%s)"
+                    % (len(sk), len(e), sk[0].split("|", 1)[1].strip())))
+    st = [ln for ln in e if "| none " in ln]
+    if st:
+        def frac(key):
+            return sum(1 for ln in st if _stat(ln, key) > 0) / len(st)
+        for key, floor in (("strict", 0.8), ("late", 0.5)):
+            if frac(key) < floor:
+                out.append(("diff", st[0][:200], "diff e2e floor: only %.0f%% of %d started scenarios have %s > 0 (floor %.0f%%)"
+                            % (100 * frac(key), len(st), key, 100 * floor)))
+        for key in ("pre", "early", "ok"):
+            if len(st) >= 100 and sum(_stat(ln, key) for ln in st) == 0:
+                out.append(("diff", st[0][:200], "diff e2e floor: no scenario has %s > 0" % key))
+    return out
 
 
 def _e2e_cov(lines):
     e = [ln for ln in lines if ln.startswith("E ")]
     return {
         "e2e_scenarios": len(e),
-        "e2e_scenarios_not_started_env": sum(1 for ln in e if _skipped(ln)),
+        "e2e_scenarios_not_run": sum(1 for ln in e if _skipped(ln)),
         "e2e_connections_opened": sum(_stat(ln, "op") for ln in e),
         "e2e_successful_use_calls": sum(_stat(ln, "ok") for ln in e),
         "e2e_request_frames_checked": sum(_stat(ln, "fr") for ln in e),
-        "e2e_request_frames_after_successful_use": sum(_stat(ln, "strict") for ln in e),
+        "e2e_strict_frames": sum(_stat(ln, "strict") for ln in e),
+        "e2e_strict_frames_on_connections_opened_after_the_call": sum(_stat(ln, "late") for ln in e),
         "e2e_scenarios_with_strict_frames": sum(1 for ln in e if _stat(ln, "strict") > 0),
+        "e2e_prepared_statement_frames": sum(_stat(ln, "pre") for ln in e),
+        "e2e_delayed_setkeyspace_answers": sum(_stat(ln, "dly") for ln in e),
+        "e2e_frames_that_overtook_a_delayed_answer": sum(_stat(ln, "early") for ln in e),
+        "e2e_handler_vs_mocknode_keyspace_disagreements": sum(_stat(ln, "xck") for ln in e),
         "e2e_requests_abandoned_after_3s": sum(_stat(ln, "slow") for ln in e),
     }
 
@@ -42,6 +67,7 @@ SPEC = {
     "coq_targets": ["Props/C20.vo", "Extract/ExC20.vo"],
     "bin": "c20",
     "sizes": {"quick": 30000, "thorough": 2000000},
+    "min_cases": {"quick": 33000, "thorough": 1900000},
     # the search stage re-runs the thorough e2e part as well: one round, not three (loopback ports)
     "search_n": 300000,
     "rule": ("pure part: every string of length 0..3 over the 12 characters a Z 7 _ \" ' ; blank - . e-acute newline "
@@ -54,8 +80,11 @@ SPEC = {
              "delayed, refused, unanswered, cutting the connection; racing requests and connection kills; two calls at once), "
              "request bursts, kill all connections of a node, close one connection, add a node, sleep; always ending with a "
              "clean use + kill + requests; non-trivial = N/V/A cases and E scenarios with at least one request frame checked "
-             "strictly after a successful use; scenarios whose session could not be built for lack of loopback ports "
-             "(EADDRINUSE after 3 retries) are reported as not-run, counted, and fail the check above max(3, 2%); "
+             "strictly after an undisturbed successful use; also USE issued as an ordinary statement, every third request as "
+             "EXECUTE of a prepared statement; acknowledged keyspace = last SetKeyspace answer WRITTEN (delayed answers apply "
+             "when their delay elapsed); scenarios not run (no session/mock, harness cap) are counted and fail the check above "
+             "max(3, 2%); floors: 80% of started scenarios with strict frames, 50% with strict frames on connections opened "
+             "after the call, some prepared frames and some frames overtaking a delayed answer; "
              "distinct = distinct case lines"),
     "nontrivial": lambda ln: (not ln.startswith("E ")) or _stat(ln, "strict") > 0,
     "extra_coverage": lambda lines, verdicts: _e2e_cov(lines),
@@ -63,7 +92,7 @@ SPEC = {
     "search_rounds": 1,
     "runner_timeout": 3000,
     "trusted_base": [
-        "vh::mocknode (scripted CQL mock cluster): per connection the keyspace acknowledged so far; the runner's handler records request-frame arrivals and client-side call/return/start events in one mutex-ordered sequence",
+        "vh::mocknode (scripted CQL mock cluster) + the runner's handler, which keeps per connection the keyspace of the last SetKeyspace answer written (a delayed answer counts from the end of its delay; mocknode's own record marks it when the USE frame is handled and is only cross-checked) and records request-frame arrivals and client-side call/return/start events in one mutex-ordered sequence",
         "hook scylla::client::verif_keyspace (pass-through to VerifiedKeyspaceName::new, Connection::verify_use_keyspace_result, cluster::use_keyspace_result)",
         "valid_name / parse_use are the name grammar and statement shape transcribed from the property text",
     ],
